@@ -683,7 +683,7 @@ def get_mvdr_vector_souden(
     lambda_ = np.trace(phi, axis1=-1, axis2=-2)[..., None, None]
     if eps is None:
         eps = np.finfo(lambda_.dtype).tiny
-    mat = phi / np.maximum(lambda_.real, eps)
+    mat = phi / np.maximum(np.abs(lambda_), eps)
     
     if ref_channel is None:
         ref_channel = get_optimal_reference_channel(
